@@ -38,6 +38,9 @@ CATALOGUE = [
     "Ford, Jr., Henry",
     "B{\\\"o}ll and{x}",
     "J.~R.~R. Tolkien\\ ",
+    "\u0130lker Y\u0131ld\u0131z",  # lower() of U+0130 is two characters
+    "D.\xa0E. Knuth\xa0",  # no-break spaces are ordinary characters of a name
+    "{{Example Corp}}",  # a person starting with a nested brace group
 ]
 SEPS = [" and ", " AND ", "\tand\n", "  and  ", "\nAnd "]
 # bases for deviation bounding (token lists over SIGMA): every string within k token edits is explored
@@ -45,6 +48,7 @@ BASES = [
     ["A", " ", "and", " ", "A"],
     ["A", " ", "A", " ", "and", " ", "A", ",", " ", "A", " ", "AND", " ", "{", "A", " ", "and", " ", "A", "}"],
     ["\\x", "A", " ", "and", "\n", "A", "~", "A", "\t", "and", " ", "\\x", "A"],
+    ["\u0130", " ", "and", " ", "{", "{", "A", "}", "}", " ", "and", " ", "\u0130", "\xa0", "A"],
 ]
 
 
